@@ -111,6 +111,10 @@ fn addr(a: usize) -> Address {
     unsafe { Address::from_usize(a) }
 }
 
+fn g_clear(gi: usize) {
+    g().global_roots[gi].store(0, Ordering::Relaxed);
+}
+
 pub fn build_mmtk<const V: usize>(case: &Case) -> &'static MMTK<ShadowVM<V>> {
     let mut builder = MMTKBuilder::new_no_env_vars();
     assert!(builder.set_option("plan", &case.plan), "bad plan {}", case.plan);
@@ -143,6 +147,9 @@ pub fn build_mmtk<const V: usize>(case: &Case) -> &'static MMTK<ShadowVM<V>> {
     gl.mmtk.store(mmtk as *const _ as usize, Ordering::Release);
     gl.ref_offset.store(variant(V).ref_offset, Ordering::Relaxed);
     gl.copy_spin.store(case.copy_spin as usize, Ordering::Relaxed);
+    if let Some((_, v)) = case.opts.iter().find(|(k, _)| k == "__scan_delay") {
+        gl.scan_delay_us.store(v.parse().unwrap_or(0), Ordering::Relaxed);
+    }
     {
         let mut muts = gl.mutators.lock().unwrap();
         for _ in 0..MAX_MUTATORS {
@@ -554,6 +561,13 @@ impl<const V: usize> Exec<V> {
                         kind = KIND_PLAIN;
                     }
                 }
+                if kind == KIND_NODE && self.barrier == BarrierSelector::SATBBarrier {
+                    // The SATB barrier's slow path enumerates the fields of the written object with
+                    // SlotIterator, which documents (plan/tracing/mod.rs, FIXME / issue 1375) that it only
+                    // works for objects supporting slot enqueuing and panics otherwise: out of domain.
+                    kind = KIND_PLAIN;
+                    cnt!(self, "steered_node_object_under_satb");
+                }
                 let ref_root = Self::root_idx(*referent);
                 let id = self.alloc_obj(m, *extra as usize, nrefs, kind, *sem, *align_log, *offset_w);
                 if id == 0 {
@@ -564,7 +578,11 @@ impl<const V: usize> Exec<V> {
                     // set the referent at creation and register
                     let tid = self.roots[m][ref_root];
                     let ta = self.root_addr(m, ref_root);
-                    if tid != 0 && tid != id {
+                    let steer = tid != 0 && self.immortal_ids.contains(&tid) && !self.is_nogc && !self.allow_known("weakref-to-unreachable-immortal-not-cleared");
+                    if steer {
+                        cnt!(self, "steered_weakref_to_immortal");
+                    }
+                    if tid != 0 && tid != id && !steer {
                         self.raw(a).set_slot(0, ta);
                         self.objs.get_mut(&id).unwrap().fields[0] = tid;
                         match kind {
@@ -814,6 +832,12 @@ impl<const V: usize> Exec<V> {
                 if id == 0 || *self.mmtk.get_options().no_finalizer {
                     return;
                 }
+                if self.immortal_ids.contains(&id) && !self.allow_known("finalizable-immortal-never-ready") {
+                    // known finding C06 finalizable-immortal-never-ready (same root cause: is_live is always
+                    // true in the immortal space): steer away, counting
+                    cnt!(self, "steered_finalizer_on_immortal");
+                    return;
+                }
                 let a = self.root_addr(m, r);
                 mm::add_finalizer(self.mmtk, oref(a));
                 self.fin_registered.push(id);
@@ -968,7 +992,16 @@ impl<const V: usize> Exec<V> {
             }
             Op::OldYoung { m, src, field, extra, via_region } => {
                 let m = self.pick_m(*m);
-                let s = Self::root_idx(*src);
+                let mut s = Self::root_idx(*src);
+                // prefer a source object that has survived a GC (search the roots upwards from `s`)
+                for k in 0..ROOTS_PER_MUTATOR {
+                    let c = (s + k) % ROOTS_PER_MUTATOR;
+                    let id = self.roots[m][c];
+                    if id != 0 && self.objs[&id].survived > 0 && self.objs[&id].nrefs > 1 {
+                        s = c;
+                        break;
+                    }
+                }
                 let sid = self.roots[m][s];
                 if sid == 0 {
                     return;
@@ -1073,6 +1106,91 @@ impl<const V: usize> Exec<V> {
                 }
                 cnt!(self, "msfill_checked");
             }
+            Op::WeakPair { m, root, kind, keep, sem, chain, fin } => {
+                let m = self.pick_m(*m);
+                let r = Self::root_idx(*root);
+                self.weak_pair(m, r, *kind, *keep, *sem, *chain, *fin);
+            }
+            Op::FinObj { m, root, n, regs, drop } => {
+                let m = self.pick_m(*m);
+                let r = Self::root_idx(*root);
+                if *self.mmtk.get_options().no_finalizer {
+                    return;
+                }
+                // closure: a chain of n objects behind the finalizable head
+                let n = (*n as usize % 8) + 1;
+                let mut prev: u64 = 0;
+                for _ in 0..n {
+                    let id = self.alloc_obj(m, 24, 2, KIND_PLAIN, 0, 0, 0);
+                    if id == 0 {
+                        return;
+                    }
+                    let a = self.objs[&id].addr;
+                    if prev != 0 {
+                        let pa = self.root_addr(m, r);
+                        self.write_field(m, a, 0, pa, false);
+                        self.objs.get_mut(&id).unwrap().fields[0] = prev;
+                    }
+                    self.set_root(m, r, id, a);
+                    prev = id;
+                }
+                let a = self.root_addr(m, r);
+                for _ in 0..(*regs).clamp(1, 3) {
+                    mm::add_finalizer(self.mmtk, oref(a));
+                    self.fin_registered.push(prev);
+                    cnt!(self, "finalizer_registered");
+                }
+                if *drop {
+                    self.set_root(m, r, 0, 0);
+                }
+            }
+            Op::Hide { m, src, dst } => {
+                let m = self.pick_m(*m);
+                let s = Self::root_idx(*src);
+                let d = Self::root_idx(*dst);
+                let (sid, did) = (self.roots[m][s], self.roots[m][d]);
+                if sid == 0 || did == 0 || sid == did {
+                    return;
+                }
+                let skind = self.objs[&sid].kind;
+                let dkind = self.objs[&did].kind;
+                let sf = if matches!(skind, KIND_SOFT | KIND_WEAK | KIND_PHANTOM) { 1 } else { 0 };
+                let df = if matches!(dkind, KIND_SOFT | KIND_WEAK | KIND_PHANTOM) { 1 } else { 0 };
+                let Some(f) = (sf..self.objs[&sid].nrefs).find(|i| self.objs[&sid].fields[*i] != 0) else { return };
+                if self.objs[&did].nrefs <= df {
+                    return;
+                }
+                let g = df + (sid as usize % (self.objs[&did].nrefs - df));
+                let xid = self.objs[&sid].fields[f];
+                let sa = self.root_addr(m, s);
+                let xa = self.raw(sa).slot(f);
+                let da = self.root_addr(m, d);
+                let marking = self.concurrent_marking_active();
+                // dst.g = x ; src.f = null ; forget x in every root
+                self.write_field(m, da, g, xa, false);
+                self.objs.get_mut(&did).unwrap().fields[g] = xid;
+                let sa = self.root_addr(m, s);
+                self.write_field(m, sa, f, 0, false);
+                self.objs.get_mut(&sid).unwrap().fields[f] = 0;
+                for mm_ in 0..MAX_MUTATORS {
+                    for rr in 0..ROOTS_PER_MUTATOR {
+                        if self.roots[mm_][rr] == xid {
+                            self.set_root(mm_, rr, 0, 0);
+                        }
+                    }
+                }
+                for gi in 0..GLOBAL_ROOTS {
+                    if self.groots[gi] == xid {
+                        g_clear(gi);
+                        self.groots[gi] = 0;
+                    }
+                }
+                cnt!(self, "hide");
+                if marking {
+                    cnt!(self, "hide_during_marking");
+                    cnt!(self, "overwrite_during_marking");
+                }
+            }
             Op::FanIn { m, target, holder, n } => {
                 let m = self.pick_m(*m);
                 let t = Self::root_idx(*target);
@@ -1098,6 +1216,100 @@ impl<const V: usize> Exec<V> {
                 cnt!(self, "fan_in");
             }
         }
+    }
+
+    /// WeakPair: see `Op::WeakPair`.
+    fn weak_pair(&mut self, m: usize, r: usize, kind: u8, keep: u8, sem: u8, chain: u8, fin: bool) {
+        if *self.mmtk.get_options().no_reference_types {
+            return;
+        }
+        let kind = match kind % 3 {
+            0 => KIND_SOFT,
+            1 => KIND_WEAK,
+            _ => KIND_PHANTOM,
+        };
+        let r1 = (r + 1) % ROOTS_PER_MUTATOR;
+        let r2 = (r + 2) % ROOTS_PER_MUTATOR;
+        let mut sem = sem;
+        if matches!(sem % 7, 1 | 3 | 4) && !self.allow_known("weakref-to-unreachable-immortal-not-cleared") {
+            // known finding C06 weakref-to-unreachable-immortal-not-cleared: steer away, counting
+            sem = 0;
+            cnt!(self, "steered_weakref_to_immortal");
+        }
+        // referent with a chain behind it, kept in r1 while we build
+        let mut prev: u64 = 0;
+        for i in 0..=(chain as usize % 4) {
+            let id = self.alloc_obj(m, 16, 2, KIND_PLAIN, if i == (chain as usize % 4) { sem } else { 0 }, 0, 0);
+            if id == 0 {
+                return;
+            }
+            let a = self.objs[&id].addr;
+            if prev != 0 {
+                let pa = self.root_addr(m, r1);
+                self.write_field(m, a, 0, pa, false);
+                self.objs.get_mut(&id).unwrap().fields[0] = prev;
+            }
+            self.set_root(m, r1, id, a);
+            prev = id;
+        }
+        let tid = prev;
+        // the reference object
+        let rid = self.alloc_obj(m, 8, 2, kind, 0, 0, 0);
+        if rid == 0 {
+            return;
+        }
+        let ra = self.objs[&rid].addr;
+        self.set_root(m, r, rid, ra);
+        let ta = self.root_addr(m, r1);
+        if self.roots[m][r1] != tid {
+            return;
+        }
+        self.raw(ra).set_slot(0, ta);
+        self.objs.get_mut(&rid).unwrap().fields[0] = tid;
+        match kind {
+            KIND_SOFT => mm::add_soft_candidate(self.mmtk, oref(ra)),
+            KIND_WEAK => mm::add_weak_candidate(self.mmtk, oref(ra)),
+            _ => mm::add_phantom_candidate(self.mmtk, oref(ra)),
+        }
+        self.ref_registered.insert(rid, kind);
+        cnt!(self, "ref_registered");
+        if fin && !*self.mmtk.get_options().no_finalizer {
+            mm::add_finalizer(self.mmtk, oref(ta));
+            self.fin_registered.push(tid);
+            cnt!(self, "finalizer_registered");
+        }
+        match keep % 4 {
+            0 => self.set_root(m, r1, 0, 0),
+            1 => {}
+            2 => {
+                // held by a field of obj(r2) if there is one with slots
+                let hid = self.roots[m][r2];
+                if hid != 0 && hid != rid && self.objs[&hid].nrefs >= 2 && self.objs[&hid].kind == KIND_PLAIN {
+                    let ha = self.root_addr(m, r2);
+                    self.write_field(m, ha, 1, ta, false);
+                    self.objs.get_mut(&hid).unwrap().fields[1] = tid;
+                }
+                self.set_root(m, r1, 0, 0);
+            }
+            _ => {
+                // only softly reachable: a second, soft reference object in r2 names the referent
+                let sid = self.alloc_obj(m, 8, 1, KIND_SOFT, 0, 0, 0);
+                if sid != 0 {
+                    let sa = self.objs[&sid].addr;
+                    let ta = self.root_addr(m, r1);
+                    if self.roots[m][r1] == tid {
+                        self.raw(sa).set_slot(0, ta);
+                        self.objs.get_mut(&sid).unwrap().fields[0] = tid;
+                        mm::add_soft_candidate(self.mmtk, oref(sa));
+                        self.ref_registered.insert(sid, KIND_SOFT);
+                        cnt!(self, "ref_registered");
+                    }
+                    self.set_root(m, r2, sid, sa);
+                }
+                self.set_root(m, r1, 0, 0);
+            }
+        }
+        cnt!(self, "weak_pair");
     }
 
     fn concurrent_marking_active(&self) -> bool {
@@ -1161,7 +1373,8 @@ impl<const V: usize> Exec<V> {
             let Some(o) = mm::get_finalized_object(self.mmtk) else {
                 // the ready queue is empty: every registration the model knows to be ready must have been returned
                 if let Some(id) = self.fin_must_ready.first().copied() {
-                    self.violate("C06", "finalizable-not-returned", format!("get_finalized_object returned None although object id {} (registered, unreachable at the last exhaustive GC) was never returned", id));
+                    let sig = if self.immortal_ids.contains(&id) { "finalizable-immortal-never-ready" } else { "finalizable-not-returned" };
+                    self.violate("C06", sig, format!("get_finalized_object returned None although object id {} (registered, unreachable at the last exhaustive GC) was never returned", id));
                     return;
                 }
                 if drain {
@@ -1484,13 +1697,13 @@ impl<const V: usize> Exec<V> {
                     KIND_WEAK => !r1.contains(fid),
                     _ => !r2.contains(fid),
                 };
-                // Reference processing decides by `ObjectReference::is_live`, which ImmortalSpace answers
-                // with `true` by documented design ("Objects in ImmortalSpace may have is_live = true but
-                // are actually unreachable", sft.rs): an immortal referent never dies, so it is never
-                // "otherwise unreachable and reclaimable".  The oracle abstains for such referents.
-                if must_clear && self.immortal_ids.contains(fid) {
-                    cnt!(self, "c06_abstain_immortal_referent");
-                    continue;
+                // Known finding (C06): reference processing decides by `ObjectReference::is_live`, which
+                // ImmortalSpace answers with `true` for every object: a reference whose referent lives in the
+                // immortal space is never cleared, although the referent is not traced either (its own
+                // referents die: dangling fields, and a panic in MarkCompact's forwarding pass).
+                if must_clear && self.immortal_ids.contains(fid) && self.ref_registered.contains_key(rid) {
+                    self.violate("C06", "weakref-to-unreachable-immortal-not-cleared", format!("exhaustive GC #{}: reference object id {} (kind {}) kept its referent id {} in the immortal space, which was not otherwise reachable (and was not traced)", self.gcs_seen, rid, kind, fid));
+                    return;
                 }
                 if must_clear && self.ref_registered.contains_key(rid) {
                     self.violate("C06", "unreachable-referent-not-cleared", format!("exhaustive GC #{}: reference object id {} (kind {}) kept referent id {} which was not otherwise reachable", self.gcs_seen, rid, kind, fid));
@@ -1544,7 +1757,7 @@ impl<const V: usize> Exec<V> {
         // the next full-heap GC: the expectation only holds until the next collection of any kind.
         self.fin_must_ready.clear();
         if exhaustive {
-            self.fin_must_ready = fin_unreach.iter().copied().filter(|id| !self.immortal_ids.contains(id)).collect();
+            self.fin_must_ready = fin_unreach.clone();
         }
 
         // --- C13 accounting
